@@ -14,7 +14,8 @@ From Tink Require Import Bytes Wrap MldsaScalar MldsaScalarProofs MldsaScalarPro
   MldsaPackProofs MldsaHintProofs MldsaUseHintProofs MldsaLowBitsProofs MldsaNttProofs MldsaAlgebraProofs
   MldsaProofs MldsaExamples
   MldsaConvProofs MldsaNormProofs MldsaSampleProofs MldsaSignVerifyProofs MldsaKeyCodecProofs MldsaSignVerifyExamples
-  MldsaNttEvalProofs MldsaVerifyIffProofs MldsaCompositeProofs MldsaAcceptExamples.
+  MldsaNttEvalProofs MldsaVerifyIffProofs MldsaCompositeProofs MldsaAcceptExamples
+  MldsaFips MldsaFipsBasics MldsaFipsSampling MldsaFipsEncodings.
 Import ListNotations.
 Local Open Scope Z_scope.
 
@@ -720,3 +721,157 @@ Example C10_prehash_inhabited :
   signPrehash ex_shake128 ex_shake256 MLDSA44 1 ex_sk44 7
     (computePrehash ex_shake256 (pk_tr ex_pk44) 8 [42%N]) [] = None.
 Proof. exact ex_prehash_inhabited. Qed.
+
+(* ------------------------------------------------------------------ *)
+(* 12. the implementation model = FIPS 204 as transcribed from the text *)
+(*     of the standard (model/MldsaFips.v, module FIPS: written          *)
+(*     independently, integer coefficients signed where the standard     *)
+(*     has them signed, bit strings, zetas as powers of 1753, XOFs with   *)
+(*     the Init/Absorb/Squeeze interface of section 3.7)                  *)
+(* ------------------------------------------------------------------ *)
+(* the parameter record of the standard for a parameter record of the model:
+   for the three sets it is Table 1 of FIPS 204 literally (incl. beta) *)
+Theorem C10_fips_parameter_sets :
+  fips_of MLDSA44 = FIPS.mkParams 39 128 (2 ^ 17) ((8380417 - 1) / 88) 4 4 2 78 80 /\
+  fips_of MLDSA65 = FIPS.mkParams 49 192 (2 ^ 19) ((8380417 - 1) / 32) 6 5 4 196 55 /\
+  fips_of MLDSA87 = FIPS.mkParams 60 256 (2 ^ 19) ((8380417 - 1) / 32) 8 7 2 120 75 /\
+  (fips_of MLDSA44 = FIPS.ML_DSA_44 /\ fips_of MLDSA65 = FIPS.ML_DSA_65 /\ fips_of MLDSA87 = FIPS.ML_DSA_87).
+Proof. repeat split; reflexivity. Qed.
+Print Assumptions C10_fips_parameter_sets.
+
+(* Algorithms 9-19: conversions and packing.  The standard's BitPack /
+   BitUnpack work on SIGNED coefficients; the model's on their canonical
+   representatives x mod q. *)
+Theorem C10_fips_conversions_and_packing :
+  (forall x alpha, FIPS.IntegerToBits x alpha = bits_of alpha x) /\
+  (forall y alpha, FIPS.BitsToInteger y alpha = val_of (firstn alpha y)) /\
+  (forall y m, length y = (m * 8)%nat -> FIPS.BitsToBytes y = map byte_of_bits (groups 8 y)) /\
+  (forall z, FIPS.BytesToBits z = flat_map bits_of_byte z) /\
+  (forall w b, length w = 256%nat -> FIPS.SimpleBitPack w b = simpleBitPack (FIPS.bitlen b) w) /\
+  (forall w a b, length w = 256%nat -> 0 <= b < q -> Forall (fun x => 0 <= b - x < q) w ->
+     FIPS.BitPack w a b = bitPack b (FIPS.bitlen (a + b)) (map (fun x => x mod q) w)) /\
+  (forall v b, (0 < FIPS.bitlen b)%nat -> length v = (32 * FIPS.bitlen b)%nat ->
+     FIPS.SimpleBitUnpack v b = simpleBitUnpack (FIPS.bitlen b) v) /\
+  (forall v a b, (0 < FIPS.bitlen (a + b))%nat -> length v = (32 * FIPS.bitlen (a + b))%nat ->
+     0 <= b < q -> 2 ^ Z.of_nat (FIPS.bitlen (a + b)) <= q ->
+     map (fun x => x mod q) (FIPS.BitUnpack v a b) = bitUnpack b (FIPS.bitlen (a + b)) v /\
+     Forall (fun x => b - 2 ^ Z.of_nat (FIPS.bitlen (a + b)) < x <= b) (FIPS.BitUnpack v a b) /\
+     length (FIPS.BitUnpack v a b) = 256%nat).
+Proof.
+  exact (conj IntegerToBits_bits_of (conj BitsToInteger_val_of (conj BitsToBytes_groups (conj BytesToBits_flat_map
+        (conj SimpleBitPack_eq (conj BitPack_eq (conj SimpleBitUnpack_eq BitUnpack_eq))))))).
+Qed.
+Print Assumptions C10_fips_conversions_and_packing.
+
+(* Algorithms 14, 15, 35-40 on field elements: the kernels the model calls
+   (= the regenerated Go kernels, section 2) compute the standard's functions;
+   r0 of Power2Round / Decompose / LowBits is signed in the standard and
+   returned mod q by the code *)
+Theorem C10_fips_rounding :
+  (forall r, 0 <= r < q -> k_power2Round r = (fst (FIPS.Power2Round r), (snd (FIPS.Power2Round r)) mod q)) /\
+  (forall g r, valid_gamma2 g -> 0 <= r < q ->
+     k_decompose r g = Some (fst (FIPS.Decompose g r), (snd (FIPS.Decompose g r)) mod q) /\
+     k_highBits r g = Some (FIPS.HighBits g r) /\ k_lowBits r g = Some ((FIPS.LowBits g r) mod q)) /\
+  (forall g z r, valid_gamma2 g -> 0 <= z < q -> 0 <= r < q -> k_makeHint z g r = Some (FIPS.MakeHint g z r)) /\
+  (forall g h r, valid_gamma2 g -> 0 <= r < q -> k_useHint r g h = Some (FIPS.UseHint g h r)) /\
+  (forall eta b, 0 <= b < 16 ->
+     coeffFromHalfByte eta b = option_map (fun x => x mod q) (FIPS.CoeffFromHalfByte eta b)).
+Proof.
+  split; [exact Power2Round_eq|]. split.
+  - intros g r Hg Hr. split; [|split].
+    + rewrite k_decompose_eq, decompose_ok by auto. rewrite (Decompose_eq g r Hr). reflexivity.
+    + rewrite k_highBits_ok by auto. rewrite HighBits_eq by auto. reflexivity.
+    + rewrite k_lowBits_ok by auto. rewrite LowBits_eq by auto. reflexivity.
+  - split; [intros g z r Hg Hz Hr; rewrite k_makeHint_ok by auto; rewrite MakeHint_eq by auto; reflexivity|].
+    split; [intros g h r Hg Hr; rewrite k_useHint_ok by auto; rewrite UseHint_eq by auto; reflexivity|].
+    intros eta b Hb. apply CoeffFromHalfByte_eq. exact Hb.
+Qed.
+Print Assumptions C10_fips_rounding.
+
+(* Algorithms 29-34: the samplers.  XOF laws: the output has the requested
+   length, consists of bytes, and a shorter request is a prefix of a longer
+   one.  The standard's rejection loops are unbounded; FIPS.RejNTTPoly etc.
+   take a bound on the number of Squeeze calls and return None beyond it; the
+   implementation model requests 12 SHAKE128 blocks (672 three-byte
+   squeezes), 1536 bytes, 8+1024 bytes in one go and returns None (out of
+   stream) when that is not enough: with these bounds the two are EQUAL, Some
+   for Some and None for None.  Signed coefficients of the standard (eta-range,
+   +-1, mask range) are the model's canonical representatives. *)
+Theorem C10_fips_sampling : forall (X : bytes -> nat -> bytes) P,
+  xof_laws X -> P = MLDSA44 \/ P = MLDSA65 \/ P = MLDSA87 ->
+  (forall rho, rejectNTTPoly X rho = FIPS.RejNTTPoly X 672 rho) /\
+  (forall rho, rejectBoundedPoly X (p_eta P) rho =
+     option_map (map (fun x => x mod q)) (FIPS.RejBoundedPoly X (fips_of P) 1536 rho)) /\
+  (forall rho, sampleInBall X (p_tau P) rho =
+     option_map (map (fun x => x mod q)) (FIPS.SampleInBall X (fips_of P) 1024 rho)) /\
+  (forall rho, expandA X P rho = FIPS.ExpandA X (fips_of P) 672 rho) /\
+  (forall rho, expandS X P rho =
+     option_map (fun '(s1, s2) => (map (map (fun x => x mod q)) s1, map (map (fun x => x mod q)) s2))
+                (FIPS.ExpandS X (fips_of P) 1536 rho)) /\
+  (forall rho mu, expandMask X P rho mu = map (map (fun x => x mod q)) (FIPS.ExpandMask X (fips_of P) rho mu)) /\
+  (forall b rho p, FIPS.RejBoundedPoly X (fips_of P) b rho = Some p -> Forall (fun c => - p_eta P <= c <= p_eta P) p) /\
+  (forall b rho c, FIPS.SampleInBall X (fips_of P) b rho = Some c -> Forall (fun x => -1 <= x <= 1) c /\ length c = 256%nat) /\
+  (forall rho mu, Forall (fun p => length p = 256%nat /\ Forall (fun x => - gamma1 P < x <= gamma1 P) p)
+                         (FIPS.ExpandMask X (fips_of P) rho mu)).
+Proof.
+  intros X P HX HP. pose proof (params_ok_facts P HP) as PF. pose proof (params_ok_ffacts P HP) as FF.
+  split; [intros; apply RejNTTPoly_eq; exact HX|].
+  split; [intros; apply (RejBoundedPoly_eq X HX P)|].
+  split; [intros; apply (SampleInBall_eq X HX P); apply PF|].
+  split; [intros; apply ExpandA_eq; exact HX|].
+  split; [intros; apply (ExpandS_eq X HX P); apply FF|].
+  split; [intros; apply (ExpandMask_eq X HX P FF PF)|].
+  split; [intros b rho p E; exact (RejBoundedPoly_range X (fips_of P) b rho p E)|].
+  split; [intros b rho c E; exact (SampleInBall_range X (fips_of P) b rho c E)|].
+  intros; apply (ExpandMask_eq X HX P FF PF).
+Qed.
+Print Assumptions C10_fips_sampling.
+
+(* Algorithms 20-28: the encodings, byte for byte.  HintBitPack for hint
+   vectors of weight <= omega (signing encodes no other); HintBitUnpack on
+   omega+k bytes: same accepted strings, same decoded vector; the decoders of
+   the implementation model additionally refuse every other length (that is
+   the Go code's length check; the standard types its input). *)
+Theorem C10_fips_encodings : forall (X : bytes -> nat -> bytes) P, P = MLDSA44 \/ P = MLDSA65 \/ P = MLDSA87 ->
+  (forall h, length h = p_k P -> Forall (fun p => length p = 256%nat) h -> (weight h <= p_omega P)%nat ->
+     FIPS.HintBitPack (fips_of P) h = hintBitPack (p_omega P) h) /\
+  (forall y, length y = (p_omega P + p_k P)%nat ->
+     FIPS.HintBitUnpack (fips_of P) y = match hintBitUnpack (p_omega P) (p_k P) y with Ok h => Some h | _ => None end) /\
+  (forall w1, length w1 = p_k P -> Forall (fun p => length p = 256%nat) w1 ->
+     FIPS.w1Encode (fips_of P) w1 = w1Encode P w1) /\
+  (forall rho t1, length rho = 32%nat -> length t1 = p_k P -> Forall (fun p => length p = 256%nat) t1 ->
+     FIPS.pkEncode (fips_of P) rho t1 = pkEncodeRaw rho t1) /\
+  (forall enc, length enc = publicKeyLength P ->
+     pkDecode X P enc = Some (mkPK (fst (FIPS.pkDecode (fips_of P) enc)) (snd (FIPS.pkDecode (fips_of P) enc)) (X enc 64%nat))) /\
+  (forall rho K tr s1 s2 t0, length rho = 32%nat -> length K = 32%nat -> length tr = 64%nat ->
+     length s1 = p_l P -> length s2 = p_k P -> length t0 = p_k P ->
+     sranges (- p_eta P) (p_eta P) s1 -> sranges (- p_eta P) (p_eta P) s2 -> sranges (-4095) 4096 t0 ->
+     FIPS.skEncode (fips_of P) rho K tr s1 s2 t0 =
+     skEncode P (mkSK rho K tr (map (map (fun x => x mod q)) s1) (map (map (fun x => x mod q)) s2)
+                                (map (map (fun x => x mod q)) t0))) /\
+  (forall enc, length enc = secretKeyLength P ->
+     let '(rho, K, tr, s1, s2, t0) := FIPS.skDecode (fips_of P) enc in
+     skDecode P enc = Some (mkSK rho K tr (map (map (fun x => x mod q)) s1) (map (map (fun x => x mod q)) s2)
+                                          (map (map (fun x => x mod q)) t0))) /\
+  (forall ct zs h, length ct = ctLen P -> length zs = p_l P -> sranges (- gamma1 P + 1) (gamma1 P) zs ->
+     length h = p_k P -> Forall (fun p => length p = 256%nat) h -> (weight h <= p_omega P)%nat ->
+     FIPS.sigEncode (fips_of P) ct zs h = sigEncode P ct (map (map (fun x => x mod q)) zs) h) /\
+  (forall sigma, length sigma = signatureLength P ->
+     sigDecode P sigma =
+     match FIPS.sigDecode (fips_of P) sigma with
+     | (ct, z, Some h) => Some (ct, map (map (fun x => x mod q)) z, h)
+     | (_, _, None) => None
+     end).
+Proof.
+  intros X P HP. pose proof (params_ok_facts P HP) as PF. pose proof (params_ok_ffacts P HP) as FF.
+  split; [intros; apply HintBitPack_eq; auto; apply PF|].
+  split; [intros; apply HintBitUnpack_eq; auto|].
+  split; [intros; apply w1Encode_eq; auto|].
+  split; [intros; apply pkEncode_eq; auto|].
+  split; [intros; apply pkDecode_eq; auto|].
+  split; [intros; apply (skEncode_eq P FF); auto|].
+  split; [intros enc L; exact (skDecode_eq P FF enc L)|].
+  split; [intros; apply (sigEncode_eq P FF PF); auto|].
+  intros sigma L. apply (sigDecode_eq P FF PF sigma L).
+Qed.
+Print Assumptions C10_fips_encodings.
